@@ -33,7 +33,11 @@ type MemConn struct {
 	Remote   net.Addr
 	Local    net.Addr
 	HoldOpen bool
-	closed   chan struct{}
+	// ReadMax > 0: a Read returns at most this many bytes. EOFWithData: the Read that returns the last bytes of the
+	// script returns io.EOF with them (io.Reader allows it; *net.TCPConn never does it, other StreamConns do).
+	ReadMax     int
+	EOFWithData bool
+	closed      chan struct{}
 	once     sync.Once
 	// bookkeeping
 	ReadEOF     bool
@@ -58,7 +62,13 @@ func (c *MemConn) Read(b []byte) (int, error) {
 		c.mu.Unlock()
 		return 0, net.ErrClosed
 	}
+	if c.ReadMax > 0 && len(b) > c.ReadMax {
+		b = b[:c.ReadMax]
+	}
 	n, err := c.in.Read(b)
+	if err == nil && n > 0 && c.in.Len() == 0 && c.EOFWithData && !c.HoldOpen {
+		err = io.EOF
+	}
 	c.BytesRead += n
 	if err == io.EOF {
 		if c.HoldOpen {
